@@ -24,6 +24,8 @@ from .common import is_call_of, loop_of, share_rule, strip_identity_wrappers
 
 
 def check(model: Model, rep: Report, tier: str):
+    from .common import depth_bound_assumption
+    depth_bound_assumption(model, rep)
     with rep.isolated():
         f1(model, rep)
     with rep.isolated():
